@@ -74,6 +74,13 @@ pub const CORPUS: &[&str] = &[
     "8/4p3/p7/np6/3k4/5K2/8/8 b - - 0 1",
     "8/5pk1/6p1/8/3B4/6K1/8/8 b - - 0 1",
     "1q4k1/8/8/8/8/8/PPPPPPP1/RNBQKBNR w KQ - 0 1",
+    // extremes: the two known 218-move positions (any fixed-size move buffer below 218 overflows here),
+    // their colour mirrors, and nine queens a side
+    "R6R/3Q4/1Q4Q1/4Q3/2Q4Q/Q4Q2/pp1Q4/kBNN1KB1 w - - 0 1",
+    "3Q4/1Q4Q1/4Q3/2Q4R/Q4Q2/3Q4/1Q4Rp/1K1BBNNk w - - 0 1",
+    "Kbnn1kb1/PP1q4/q4q2/2q4q/4q3/1q4q1/3q4/r6r b - - 0 1",
+    "1k1bbnnK/1q4rP/3q4/q4q2/2q4r/4q3/1q4q1/3q4 b - - 0 1",
+    "qqqqkqqq/1q6/8/8/8/8/1Q6/QQQQKQQQ w - - 0 1",
 ];
 
 pub fn corpus_pos(i: usize) -> Pos {
